@@ -19,6 +19,7 @@ package main
 //         stop | start           replication manager of the replica stopped / a new one started on
 //                                the same engine;   reopen = stop + engine closed and reopened + start
 //         cut | heal             the forwarder drops every connection and refuses new ones / accepts again
+//         idle ms                nothing happens for ms milliseconds
 //         settle                 wait for convergence (see above)
 // Observations (mirrored by model/drv_c14.ml):  S conv=0|1 applied=<replica's last applied seq>
 //         + one line  r K V  per live key of the replica, ascending.
@@ -531,6 +532,10 @@ func runC14(cs *Case, out func(string)) {
 			}
 			txs++
 			ack(ops, guard("ApplyBatch", func() error { return c.pe.ApplyBatch(es) }), "batch")
+		case "idle":
+			// the replica has caught up and nothing happens for a while (no observation)
+			ms, _ := strconv.Atoi(l[1])
+			time.Sleep(time.Duration(ms) * time.Millisecond)
 		case "flush":
 			r.flushes++
 			if err := guard("flush", func() error { return c.pe.FlushImMemTables() }); err != nil && !blocked {
@@ -725,8 +730,10 @@ func genC14(w *bufio.Writer, seed int64, n int, tier string) {
 			shape := i % 4
 			if i == 4 {
 				shape = 7
-			} else if i > 4 {
-				shape = r.Intn(8)
+			} else if i == 5 {
+				shape = 8
+			} else if i > 5 {
+				shape = r.Intn(9)
 			}
 			switch shape {
 			case 0: // replica first, then bursts (also of a single write: the last write must arrive)
@@ -817,6 +824,20 @@ func genC14(w *bufio.Writer, seed int64, n int, tier string) {
 					g.emit("heal")
 				}
 				g.emit("settle")
+			case 8: // a session that stays open and idle across a log rotation, then the last write(s)
+				g.emit("join")
+				g.burst(2, 6)
+				g.emit("settle")
+				g.emit(fmt.Sprintf("idle %d", 1500+r.Intn(3000)))
+				g.emit("flush")
+				g.burst(1, 1)
+				g.emit("settle")
+				if r.Intn(2) == 0 {
+					g.emit(fmt.Sprintf("idle %d", 1500+r.Intn(2000)))
+					g.emit("flush")
+					g.burst(1, 2)
+					g.emit("settle")
+				}
 			case 5: // cut while the replica is catching up on a long history
 				g.many(150 + r.Intn(100))
 				g.emit("join")
